@@ -18,6 +18,12 @@ package main
 //                       U  UPDATE of mailboxes.uid_next
 //                       I  INSERT INTO message_mailbox
 //                       Q  SELECT reading message_mailbox.uid
+//                       L  SELECT reading mailboxes.name and not uid_next (lookup by name)
+//                       D  DELETE FROM message_mailbox
+//                       B  BEGIN          C  COMMIT
+//                     Up to and including the first statement after B a session
+//                     holds no lock; from the second statement of a transaction on
+//                     it holds SHARED/RESERVED and other writers cannot commit.
 //   c03_hold          {"holder":{"conn":..,"steps":[..]},
 //                      "others":[{"conn":..,"steps":[..]},..],
 //                      "holds":[{"at":k,"run":[i,..]},..], "timeout_ms":..}
@@ -69,16 +75,30 @@ func (g *c03Gate) arrive(p string) {
 
 func c03Authorizer() func(int, string, string, string) int {
 	const (
+		aDelete = 9
 		aInsert = 18
 		aRead   = 20
 		aSelect = 21
+		aTx     = 22
 		aUpdate = 23
 	)
 	kind := 0
+	sawName := false
 	return func(op int, a1, a2, a3 string) int {
 		switch op {
 		case aSelect:
 			kind = aSelect
+			sawName = false
+		case aTx:
+			if a1 == "BEGIN" {
+				c03gate.arrive("B")
+			} else if a1 == "COMMIT" {
+				c03gate.arrive("C")
+			}
+		case aDelete:
+			if a1 == "message_mailbox" {
+				c03gate.arrive("D")
+			}
 		case aUpdate:
 			kind = aUpdate
 			if a1 == "mailboxes" && a2 == "uid_next" {
@@ -96,6 +116,13 @@ func c03Authorizer() func(int, string, string, string) int {
 			} else if kind == aSelect && a1 == "message_mailbox" && a2 == "uid" {
 				kind = 0
 				c03gate.arrive("Q")
+			} else if kind == aSelect && a1 == "mailboxes" && a2 == "user_id" && sawName {
+				// "SELECT id FROM mailboxes WHERE name = ? AND user_id = ?": the columns are
+				// reported in the order id, name, user_id; uid_next was not among them
+				kind = 0
+				c03gate.arrive("L")
+			} else if kind == aSelect && a1 == "mailboxes" && a2 == "name" {
+				sawName = true
 			}
 		}
 		return 0
@@ -231,6 +258,9 @@ func opC03Hold(w *World, op Op) Obs {
 
 	otherRes := make([][]c03Step, len(others))
 	ran := make([]bool, len(others))
+	wantDumps := op.boolean("dumps")
+	var dumps []interface{}
+	var dumpAfter []int
 	errText := ""
 	// run one other thread to completion; every arrival while it runs is its own
 	runOther := func(i int) {
@@ -247,6 +277,10 @@ func opC03Hold(w *World, op Op) Obs {
 				close(a.release)
 			case rs := <-done:
 				otherRes[i] = rs
+				if wantDumps {
+					dumps = append(dumps, opDump(w, Op{})["stores"])
+					dumpAfter = append(dumpAfter, i)
+				}
 				return
 			case <-deadline:
 				if errText == "" {
@@ -292,9 +326,13 @@ loop:
 		if !ran[i] {
 			ran[i] = true
 			otherRes[i] = c03RunSteps(w, others[i])
+			if wantDumps {
+				dumps = append(dumps, opDump(w, Op{})["stores"])
+				dumpAfter = append(dumpAfter, i)
+			}
 		}
 	}
-	o := Obs{"holder": holderRes, "others": otherRes, "points": points, "reached": reached}
+	o := Obs{"holder": holderRes, "others": otherRes, "points": points, "reached": reached, "dumps": dumps, "dump_after": dumpAfter}
 	if errText != "" {
 		o["error"] = errText
 	}
